@@ -1,7 +1,7 @@
 #!/bin/bash
 # usage: trymut.sh <patch.diff> <property> [extra check.py args]   -- applies a seeded change to /repo, runs the check, restores /repo
 patch=$1; prop=$2; shift 2
-git -C /repo apply "$patch" || { echo "patch does not apply"; exit 9; }
+git -C /repo apply "$patch" 2>/dev/null || git -C /repo apply --3way "$patch" || { echo "patch does not apply"; git -C /repo reset -q --hard HEAD; exit 9; }
 timeout ${TRYMUT_TIMEOUT:-900} python3-vt /verif/engine/check.py $prop --no-evidence "$@" 2>&1 | grep -E "VIOLATION|KNOWN|exit|assertion:|counterexample|job |disagree|not reprod|internal|error" | cut -c1-400
-git -C /repo checkout -- . 
+git -C /repo reset -q --hard HEAD
 git -C /repo status --short | grep -v _build
